@@ -43,11 +43,16 @@ def run_jobs(prop, tier, jobs, env=None):
     Each job writes an mc::Result JSON to its --out. Returns list of parsed results."""
     os.makedirs(TMP, exist_ok=True)
     results = [None] * len(jobs)
+    t_start = time.time()
 
     def one(i):
         j = jobs[i]
         out = os.path.join(TMP, "%s-%s-%d-%d.json" % (prop, tier, os.getpid(), i))
         argv = list(j["argv"]) + ["--out", out]
+        if "--deadline" in argv:
+            # the deadline is global for the whole check: a job started late gets what is left
+            k = argv.index("--deadline")
+            argv[k + 1] = str(max(1.0, float(argv[k + 1]) - (time.time() - t_start)))
         t0 = time.time()
         try:
             r = subprocess.run(argv, stdout=subprocess.PIPE, stderr=subprocess.STDOUT, text=True,
@@ -77,7 +82,10 @@ def merge(results):
         m["states"] += d.get("states", 0)
         m["transitions"] += d.get("transitions", 0)
         for k, v in d.get("counters", {}).items():
-            m["counters"][k] = m["counters"].get(k, 0) + v
+            if k.startswith("max_") or k.startswith("retrograde_rounds") or k.startswith("solver_"):
+                m["counters"][k] = max(m["counters"].get(k, 0), v)
+            else:
+                m["counters"][k] = m["counters"].get(k, 0) + v
         for k, v in d.get("violation_classes", {}).items():
             m["violation_classes"][k] = m["violation_classes"].get(k, 0) + v
         m["violations"] += d.get("violations", [])
